@@ -334,6 +334,9 @@ func runIter(c *core.Ctx, pkg string, pair bool) {
 	forEachRule(c, pkg, pair)
 	noSliceWrite(c, pkg)
 	if pair {
+		// expressions mix pair and plain sequences through ToSeq / FromSeq: the plain leaves must not write the
+		// caller's slices either (shared with C14)
+		noSliceWrite(c, "trait/seq")
 		kvRules(c, pkg)
 	}
 }
